@@ -648,46 +648,45 @@ def check_stepplan(ctx: core.Ctx, plan: StepPlan, file: str, func: str, tag: str
     if not isinstance(k, Scalar):
         ctx.error(f"{where}: loop bound `{k}` could not be evaluated")
         return
+    def strip_abs(sc):
+        at = _single_atom(sc)
+        if at is not None and at[0] == "abs":
+            return Scalar(dict(at[1])), True
+        return sc, False
+
     a = _single_atom(k)
-    outer_abs = inner_abs = False
-    okshape = False
-    q = None
-    if a is not None:
-        if a[0] == "abs":
-            outer_abs = True
-            a = _single_atom(Scalar(dict(a[1])))
-        if a is not None and a[0] == "floor":
-            inner = Scalar(dict(a[1]))
-            b = _single_atom(inner)
-            if b is not None and b[0] == "abs":
-                inner_abs = True
-                inner = Scalar(dict(b[1]))
-                b = _single_atom(inner)
-            if b is not None and b[0] == "div":
-                q = (Scalar(dict(b[1])), Scalar(dict(b[2])))
-                okshape = True
-            elif inner_abs is False and b is None:
-                # division by a constant was folded: not the configured step
-                pass
-    if not okshape:
-        ctx.error(f"{where}: loop bound {k!r} is not of the form [abs] floor([abs] (target - held) / step)")
+    outer_abs = False
+    shape = None
+    if a is not None and a[0] == "abs":
+        outer_abs = True
+        a = _single_atom(Scalar(dict(a[1])))
+    if a is not None and a[0] == "floor":
+        inner, q_abs = strip_abs(Scalar(dict(a[1])))
+        b = _single_atom(inner)
+        if b is not None and b[0] == "div":
+            num, n_abs = strip_abs(Scalar(dict(b[1])))
+            den, d_abs = strip_abs(Scalar(dict(b[2])))
+            shape = (num, n_abs, den, d_abs, q_abs)
+    if shape is None:
+        ctx.error(f"{where}: loop bound {k!r} is not of the form [abs] floor([abs] ([abs](target - held)) / [abs](step))")
         return
-    num, den = q
+    num, n_abs, den, d_abs, q_abs = shape
     num_ok = num == D or num == -D
     den_ok = den == Sym.MAX or den == -Sym.MAX
     ctx.oblige("TEMPLATE", where, f"k = {k!r}", num_ok and den_ok, file=file, func=func, construct=f"loop bound operands {plan.scenario}",
                msg=f"loop bound divides {num!r} by {den!r}; required (target - held) / (+-max step)")
     if num_ok and den_ok:
-        dsg = want if num == D else {"+": "-", "-": "+"}[want]
-        qsg = "+" if dsg == sign_of(den, facts) else "-"
-        okk = inner_abs or qsg == "+"
-        ctx.oblige("TEMPLATE", where, f"sign of quotient under {plan.scenario} = {qsg}, abs inside floor: {inner_abs}", okk,
+        nsg = "+" if n_abs else (want if num == D else {"+": "-", "-": "+"}[want])
+        dsg = "+" if d_abs else sign_of(den, facts)
+        qsg = "+" if (q_abs or nsg == dsg) else "-"
+        ctx.oblige("TEMPLATE", where, f"sign of the floored quotient under {plan.scenario} = {qsg}", qsg == "+",
                    file=file, func=func, construct=f"loop bound rounding {plan.scenario}",
-                   msg=f"moving {plan.scenario}, (target - held)/step = {num!r}/{den!r} is negative where it is floored: floor rounds away "
+                   msg=f"moving {plan.scenario}, the quotient {num!r}/{den!r} is negative where it is floored: floor rounds away "
                        f"from zero, so one step too many is taken and the remainder points against the direction of travel"
                        + ("" if outer_abs else " (and without abs the count is negative)"))
+        direction_free = q_abs or (n_abs and d_abs) or (n_abs and den == Sym.MAX)
         same = den == h
-        ctx.oblige("TEMPLATE", where, f"loop bound computed with the issued step ({den!r} vs {h!r})", same or inner_abs, file=file,
+        ctx.oblige("TEMPLATE", where, f"loop bound computed with the issued step ({den!r} vs {h!r})", same or direction_free, file=file,
                    func=func, construct=f"loop bound step identity {plan.scenario}",
                    msg=f"the loop bound is computed with step {den!r} but the steps issued are {h!r}")
     # remainder
@@ -752,6 +751,18 @@ class TickExec:
         self.benign = benign
         self.loops: List[Any] = []
         self.env: Dict[str, Any] = {}
+        self.alias: Dict[str, Any] = {}            # local name -> expression it is a plain copy of
+        self.pending: Dict[str, Any] = {}          # local name -> (STEP/UPDATE event, component index or None)
+
+    def res(self, e):
+        """resolve local aliases (x = y) inside an expression"""
+        if isinstance(e, tuple):
+            if e and e[0] == "ref" and e[1] in self.alias:
+                return self.res(self.alias[e[1]])
+            return tuple(self.res(x) if isinstance(x, (tuple, list)) else x for x in e)
+        if isinstance(e, list):
+            return [self.res(x) for x in e]
+        return e
 
     def ev(self, kind, **d):
         self.events.append(TickEvent(kind, d, self.in_loop, list(self.guard)))
@@ -830,24 +841,60 @@ class TickExec:
             if init is not None:
                 if init[0] == "init" and any(b in s[3] for b in self.benign):
                     return
-                self.handle_value(init, [])
+                init = self.res(init)
+                if init[0] in ("ref", "field") and not self._has_call(init):
+                    if init[0] == "ref" and init[1] in self.pending:
+                        self.pending[name] = self.pending[init[1]]
+                    else:
+                        self.alias[name] = init
+                    return
+                n0 = len(self.events)
+                calls = self.handle_value(init, [name])
+                new = [e for e in self.events[n0:] if e.kind in ("STEP", "UPDATE")]
+                if new and calls:
+                    self.pending[name] = (new[-1], None)
                 self.env[name] = init
             return
         if k in ("assign", "assign_tuple"):
+            value = self.res(s[2])
+            tgt_nodes = s[1][2] if s[1][0] == "init" else [s[1]]
             tg = self.targets_text(s[1])
-            calls = self.handle_value(s[2], tg)
+            # a local that holds the result of an earlier STEP / UPDATE is now written to held fields: that is the hold of that call
+            src = value
+            comp = None
+            if src[0] == "ref" and src[1] in self.pending:
+                evn, comp0 = self.pending[src[1]]
+                held = [t for t in tg if t.startswith("@")]
+                evn.detail["writes"] = [w for w in evn.detail["writes"] if w.startswith("@")] + held
+                evn.detail["whole"] = True
+                for i, t in enumerate(tgt_nodes):
+                    if t[0] == "ref":
+                        self.pending[t[1]] = (evn, i)
+                return
+            n0 = len(self.events)
+            calls = self.handle_value(value, tg)
+            new = [e for e in self.events[n0:] if e.kind in ("STEP", "UPDATE")]
+            if new and calls:
+                for i, t in enumerate(tgt_nodes):
+                    if t[0] == "ref":
+                        self.pending[t[1]] = (new[-1], i)
+                    elif t[0] == "init":
+                        for tt in t[2]:
+                            if tt[0] == "ref":
+                                self.pending[tt[1]] = (new[-1], i)
             if not calls:
                 for t in tg:
-                    self.ev("WRITE", target=t, value=show2(s[2]))
+                    self.ev("WRITE", target=t, value=show2(value))
             return
         if k == "expr":
-            self.handle_value(s[1], [])
+            self.handle_value(self.res(s[1]), [])
             return
         if k == "if":
             _, cond, then, els, cval = s
             if cval is not None:
                 self.block(then if cval else els)
                 return
+            cond = self.res(cond)
             self.guard.append(cppast.show(cond))
             self.block(then)
             self.guard.pop()
@@ -868,9 +915,10 @@ class TickExec:
             self.problems.append(f"unexpected {k} loop in tick")
             return
         if k == "return":
-            if s[1] is not None:
-                calls = self.handle_value(s[1], [])
-            self.ev("RETURN", value=cppast.show(s[1]) if s[1] is not None else None, nested=nested)
+            val = self.res(s[1]) if s[1] is not None else None
+            if val is not None:
+                calls = self.handle_value(val, [])
+            self.ev("RETURN", value=cppast.show(val) if val is not None else None, nested=nested)
             return
         if k == "raise":
             self.ev("RAISE", value=cppast.show(s[1]) if s[1] else "")
@@ -884,6 +932,19 @@ class TickExec:
 
 def _strip(e):
     return e
+
+
+def _has_call_impl(e):
+    if isinstance(e, tuple):
+        if e and e[0] in ("call", "mcall"):
+            return True
+        return any(_has_call_impl(x) for x in e)
+    if isinstance(e, list):
+        return any(_has_call_impl(x) for x in e)
+    return False
+
+
+TickExec._has_call = staticmethod(_has_call_impl)
 
 
 def show2(e) -> str:
